@@ -261,7 +261,7 @@ def relevant(prop, fail):
 
 
 TIERS = {
-    'quick': dict(timeout=240, mem_gb=8, max_unwind=14),
+    'quick': dict(timeout=420, mem_gb=8, max_unwind=14),   # the slowest quick queries take 2-3 min on an idle machine
     'thorough': dict(timeout=1200, mem_gb=12, max_unwind=30),
 }
 # the formatting harnesses compare 40-byte buffers
